@@ -4,8 +4,8 @@ import os
 import core
 from stages.common import *
 
-MON_C03 = {"DistinctCount", "DuplicateIsNoOp", "FlushExact"}
-MON_C12 = {"SigsBounded", "RcvdBounded", "NoCrossEviction"}
+MON_C03 = {"DistinctCount", "DuplicateIsNoOp", "FlushExact", "Panicked"}
+MON_C12 = {"SigsBounded", "RcvdBounded", "NoCrossEviction", "Panicked"}
 
 
 def run(ctx, monitors):
